@@ -230,6 +230,20 @@ Fixpoint h2v1_cols (p : sprec) (L : layout) (ys cbs crs : list Z) (buf : list Z)
   | _, _ => buf
   end.
 
+Fixpoint h2v1_rows (p : sprec) (L : layout) (ys cbs crs : list (list Z)) (buf : list Z) (ptrs : list Z) : list Z :=
+  match ys, cbs, crs, ptrs with
+  | y :: ty, cb :: tcb, cr :: tcr, op :: tp => h2v1_rows p L ty tcb tcr (h2v1_cols p L y cb cr buf op) tp
+  | _, _, _, _ => buf
+  end.
+(* h2v2_merged_upsample_internal: two output rows share one chroma row *)
+Fixpoint dup_rows {A : Type} (l : list A) : list A := match l with [] => [] | x :: t => x :: x :: dup_rows t end.
+Definition h2v2_rows (p : sprec) (L : layout) (ys cbs crs : list (list Z)) (buf : list Z) (ptrs : list Z) : list Z :=
+  h2v1_rows p L ys (dup_rows cbs) (dup_rows crs) buf ptrs.
+
+Definition amax_of_bits (bits : Z) : Z :=
+  if bits =? 8 then MAXJSAMPLE else if bits =? 12 then MAXJ12SAMPLE else MAXJ16SAMPLE.
+Definition prec_of_bits (bits : Z) : sprec := if bits =? 12 then prec12 else prec8.
+
 (* the same row written pixel by pixel after replicating the chroma samples: the
    specification h2v1_cols is compared with *)
 Fixpoint dup2 (l : list Z) : list Z := match l with [] => [] | x :: t => x :: x :: dup2 t end.
